@@ -31,6 +31,20 @@ Definition t06_domain (cfg : run_cfg) (st : run_state) : bool :=
   && forallb (fun j => forallb (fun jp => fits (p_amount (jp_p jp)) && fits (p_txn_amount (jp_p jp))) (jt_posts j))
              (rs_sel st).
 
+(* a report that fails (a converted amount out of range: conv_overflow) fails after the metadata block, the complete
+   earlier reports and its own separator line were written: that much must be on the output, the exit status is 1 *)
+Fixpoint frames_before (rt : MetaText.report_kind -> option (list N)) (ks : list MetaText.report_kind) : list N :=
+  match ks with
+  | [] => []
+  | k :: r => match rt k with Some t => frame_report t ++ frames_before rt r | None => star_line end
+  end.
+Fixpoint is_prefix_of (a b : list N) : bool :=
+  match a, b with
+  | [], _ => true
+  | x :: a', y :: b' => N.eqb x y && is_prefix_of a' b'
+  | _ :: _, [] => false
+  end.
+
 Definition t06_bits (agree orc dom hyp : bool) (diff : N) : N :=
   ((if agree then 1 else 0) + (if orc then 2 else 0) + (if dom then 4 else 0) + (if hyp then 8 else 0)
    + 16 * diff)%N.
@@ -48,7 +62,9 @@ Definition t06_console_case (cfg : run_cfg) (tbl : list (list N * list N)) (jtex
       let orc := negb ok || console_oracle cfg (rs_file st) (rs_txns st) out in
       match run_console H cfg jtext ptext with
       | Ok m => t06_bits (ok && text_eqb m out) orc (t06_domain cfg st) (run_hyp cfg st) (first_diff m out 0)
-      | Err _ => t06_bits (negb ok) orc false (run_hyp cfg st) 1
+      | Err _ =>
+          t06_bits (negb ok && is_prefix_of (MetaText.file_head (rs_md st) ++ frames_before (report_text H cfg st) (rc_targets cfg)) out)
+                   orc (run_dom cfg && conv_overflow cfg st) (run_hyp cfg st) 1
       end
   end.
 
@@ -110,7 +126,10 @@ Definition t06_files_case (cfg : run_cfg) (tbl : list (list N * list N)) (jtext 
           let same := N.eqb bad 0 && Nat.eqb (length files) (length impl) && text_eqb ann out in
           t06_bits (ok && same) orc (t06_domain cfg st) (run_hyp cfg st)
                    (if same then 0 else if N.eqb bad 0 then N.of_nat (length files) + 1 else bad)
-      | Err _ => t06_bits (negb ok) orc false (run_hyp cfg st) 1
+      | Err _ =>
+          (* the first report fails: no announcement at all *)
+          t06_bits (negb ok && match out with [] => true | _ => false end) orc
+                   (run_dom cfg && conv_overflow cfg st && match rc_targets cfg with [] => false | _ => true end) (run_hyp cfg st) 1
       end
   end.
 
